@@ -309,7 +309,7 @@ def run_obligation(ob, tier, keep_work=False):
     os.makedirs(wd, exist_ok=True)
     # a time-out is reported as UNDECIDED (exit 2), which on the unchanged tree would count as a broken check: the budget is
     # a multiple of the time measured on an idle machine so that a loaded machine still gets an answer
-    timeout = max(3 * ob.get("timeout", 300), int(os.environ.get("VERIF_MIN_TIMEOUT", "1800")))
+    timeout = max(4 * ob.get("timeout", 300), int(os.environ.get("VERIF_MIN_TIMEOUT", "3600")))
     mem = ob.get("mem_gb", 24)
 
     def undecided(why, log=""):
